@@ -158,9 +158,21 @@ func KeyshareResponse[T comparable](
 	keys map[T]*gabikeys.PublicKey,
 ) (*ProofP, error) {
 	// Sanity checks
+	if responseRequest.Nonce == nil || responseRequest.UserResponse == nil {
+		return nil, errors.New("response request is incomplete")
+	}
 	for i, k := range responseRequest.UserChallengeInput {
 		if k.KeyID != nil && keys[*k.KeyID] == nil {
 			return nil, errors.Errorf("missing public key for element %d of challenge input", i)
+		}
+		// A request that arrived over the wire may lack any of its parts
+		if k.Value == nil || k.Commitment == nil {
+			return nil, errors.Errorf("element %d of challenge input is incomplete", i)
+		}
+		for _, c := range k.OtherCommitments {
+			if c == nil {
+				return nil, errors.Errorf("element %d of challenge input is incomplete", i)
+			}
 		}
 	}
 	if responseRequest.Context == nil {
